@@ -695,4 +695,10 @@ example :
       = some [.executed 1, .sent "bob" 2 "ucosm", .called "x"] := by
   decide
 
+/-- non-vacuity of `dispatch_no_second_execution`: after `exMore` proposal 1 is stored Executed (ghost count 1), the
+state satisfies `Inv`, and a further dispatch (an external call) succeeds — without adding an execution -/
+example : isExec (run 10 exW0 exMore).ms.core 1 = true ∧ executions (run 10 exW0 exMore) 1 = 1 ∧
+    ((dispatch 5 (run 10 exW0 exMore) ⟨103, 1003⟩ [.other "x"]).toOption.map fun w' => executions w' 1) = some 1 := by
+  decide
+
 end CwPlus.Props.C05
